@@ -56,7 +56,8 @@ type Sched struct {
 	exited   chan struct{}
 	ptrSeq   map[uintptr]int
 	noYield  int
-	Clock    int // logical event clock for harness oracles (Tick)
+	quiet    bool // scheduling/deviation choices take their default and are not recorded (set-up and epilogue phases)
+	Clock    int  // logical event clock for harness oracles (Tick)
 }
 
 var S *Sched
@@ -68,6 +69,9 @@ func Cur() *Thread { return S.cur }
 // choose consumes one decision.
 func (s *Sched) choose(n int, preempt bool, kind string) int {
 	if n <= 1 {
+		return 0
+	}
+	if s.quiet && !strings.HasPrefix(kind, "env:") {
 		return 0
 	}
 	i := len(s.Points)
@@ -105,6 +109,15 @@ func Tick() int {
 	}
 	S.Clock++
 	return S.Clock
+}
+
+// Quiet switches schedule exploration off (true) or on (false): while quiet, every scheduling, select and
+// map-order choice takes its default and is not a choice point, so that the deviation budget of an exploration
+// is spent only in the phase of a harness that is meant to be raced (environment choices are always recorded).
+func Quiet(q bool) {
+	if S != nil {
+		S.quiet = q
+	}
 }
 
 // Active reports whether a controlled execution is running.
@@ -231,7 +244,7 @@ func Yield(enabled func() bool, desc string) {
 	t.pending = nil
 	t.idle = false
 	if s.Trace {
-		s.Log = append(s.Log, fmt.Sprintf("%s: %s", t.Name, desc))
+		s.Log = append(s.Log, fmt.Sprintf("%s[%s]: %s", t.Name, t.Tag, desc))
 	}
 }
 
